@@ -114,7 +114,7 @@ def replay(col, item):
     hist = case["hist"]
     root = tempfile.mkdtemp(prefix="verif-c15-")
     cache = os.path.join(root, "cache.json")
-    saved = {"atexit": FM.atexit, "shutil": FM.shutil, "open": FM.__dict__.get("open")}
+    saved = {"atexit": FM.atexit, "shutil": FM.shutil, "open": FM.__dict__.get("open"), "json": FM.json, "os": FM.os}
     rep = {"abstract": {"history": hist, "final_main": case["main"], "loaded": case["loaded"], "warned": case["warned"]},
            "concrete": {"catalogue": kind}}
     try:
@@ -157,6 +157,22 @@ def replay(col, item):
                                 return CrashingFile(real, (seq % 5) if fs.info_cache else 0)
                         return real
                     FM.open = crashing_open
+                    # second injector, independent of how the backup file is opened: json.dump writes a strict
+                    # prefix of the document (or nothing) and the process dies
+                    if last in ("save_open", "save_write"):
+                        import json as _json
+                        class J:
+                            def __getattr__(self, n):
+                                return getattr(_json, n)
+                            def dump(self, obj, fp, *aa, **kk):
+                                text = _json.dumps(obj, *aa, **kk)
+                                cut = 0 if last == "save_open" else max(1, (len(text) * (1 + seq % 4)) // 5)
+                                cut = min(cut, len(text) - 1)
+                                real_fp = getattr(fp, "real", fp)
+                                real_fp.write(text[:cut])
+                                real_fp.flush()
+                                raise Crash("json.dump")
+                        FM.json = J()
                     if last == "save_close":
                         class S:
                             def __getattr__(self, n):
@@ -164,6 +180,13 @@ def replay(col, item):
                             def move(self, *aa, **kk):
                                 raise Crash("before rename")
                         FM.shutil = S()
+                        class O:                      # ... whichever rename primitive is used
+                            def __getattr__(self, n):
+                                return getattr(os, n)
+                            def rename(self, *aa, **kk):
+                                raise Crash("before rename")
+                            replace = rename
+                        FM.os = O()
                     try:
                         fs.save_cache(cache)
                         died = False
@@ -174,6 +197,7 @@ def replay(col, item):
                         return
                     finally:
                         FM.shutil = saved["shutil"]
+                        FM.json, FM.os = saved["json"], saved["os"]
                         FM.__dict__.pop("open", None)
                     if not died:
                         # the document was complete before the chosen write call: this replay no longer follows the
@@ -249,6 +273,7 @@ def replay(col, item):
             col.nontrivial.add((json.dumps(hist), kind))
     finally:
         FM.atexit, FM.shutil = saved["atexit"], saved["shutil"]
+        FM.json, FM.os = saved["json"], saved["os"]
         FM.__dict__.pop("open", None)
         shutil.rmtree(root, ignore_errors=True)
 
